@@ -129,7 +129,7 @@ def scenario_projects() -> List[Dict[str, Any]]:
     ], ["HIDDEN:mv._impl"])
     # (a project whose only root is hidden has no visible object at all: lunr then divides by zero and the run aborts
     #  before anything is written - nothing to crawl; counted as `run-crash` when a random rule list does it)
-    add("hidden-one-of-two-roots", [U("r1", "'''one'''\nclass A:\n    '''a'''\n"), U("r2", "'''two'''\nfrom r1 import A\nclass B(A):\n    '''see L{r1}'''\n")],
+    add("hidden-one-of-two-roots", [U("r1", "'''one see L{r2.B}'''\nclass A:\n    '''a'''\n"), U("r2", "'''two'''\nfrom r1 import A\nclass B(A):\n    '''see L{r1}'''\n")],
         ["HIDDEN:r1"])
     add("two-roots", [U("r1", "'''one'''\nclass A:\n    '''a'''\n    def __init__(self, a):\n        '''i'''\n", True),
                       U("r1._p", "def f(): pass\n"),
@@ -655,21 +655,22 @@ def crawl_page(fn: str, text: str) -> Dict[str, Any]:
             for li in tree.find_all("li"):
                 if "compact-modules" in _classes(li):
                     continue
-                first = None
+                # the row's own link is the one inside the first <code> child; everything else before the nested
+                # <ul> belongs to the copied summary
+                code0 = li.find("code", recursive=False)
+                own = code0.find("a", class_="internal-link") if code0 is not None else None
+                if own is not None:
+                    entries.append(("modindex", own.get("href"), _has_private(li), ""))
+                    links.append(("modindex", own.get("href"), own.get("title") or _text(own)))
                 for ch in li.children:
                     if getattr(ch, "name", None) == "ul":
                         break
                     if getattr(ch, "name", None) is None:
                         continue
                     for a in ([ch] if ch.name == "a" else ch.find_all("a", class_="internal-link")):
-                        if "internal-link" not in _classes(a):
+                        if "internal-link" not in _classes(a) or a is own:
                             continue
-                        if first is None:
-                            first = a
-                            entries.append(("modindex", a.get("href"), _has_private(li), ""))
-                            links.append(("modindex", a.get("href"), a.get("title") or _text(a)))
-                        else:
-                            links.append(("modindex-sum", a.get("href"), a.get("title") or _text(a)))
+                        links.append(("modindex-sum", a.get("href"), a.get("title") or _text(a)))
                 code = li.find("code", recursive=False)
                 if code is not None and code.find("a") is None:
                     # a row written without a link: taglink refused it (the module is not visible)
